@@ -65,7 +65,7 @@ package backend
 //@   ensures [err-kept-revision] err != nil ==> rev == 0 || rev < 0x8000000000000000
 
 //@ func (*backend).mustDeal(prevRev) (rev)
-//@   props C04
+//@   props C02 C04
 //@   requires wf_backend(b) && pending == 0
 //@   modifies ghost.pending ghost.max_issued
 //@   ensures [pending] pending == rev && (rev == 0 || rev < 0x8000000000000000)
@@ -134,6 +134,7 @@ package backend
 //@   ensures [a-deletion-reads-as-absent] first_is_version_of(r.Key) && bytes_eq(rec_val[0], tombStoneBytes) ==> err == nil && resp != nil && resp.Kv == nil
 //@   ensures [nothing-else-is-returned] err == nil && resp.Kv != nil ==> first_is_version_of(r.Key) && resp.Kv.Value == rec_val[0] && resp.Kv.Revision == rec_rev[0]
 //@   ensures [header-not-below-the-data] err == nil ==> resp != nil && resp.Header != nil && (resp.Kv != nil ==> resp.Header.Revision >= resp.Kv.Revision)
+//@   ensures [reads-at-the-revision-asked-for] err == nil && resp.Kv != nil ==> is_enc(it_lo, r.Key, ite(r.Revision == 0, MaxUint64, r.Revision)) && is_enc(it_hi, r.Key, uint64(0))
 
 // Count: the header names the committed revision; the count is the scanner's (C20: no panic for any request)
 //@ func (*backend).Count(ctx, r) (resp, err)
@@ -247,6 +248,9 @@ package backend
 //@   modifies ghost.bw_n ghost.bw_kind ghost.bw_key ghost.bw_val ghost.bw_old ghost.bw_ttl ghost.commits ghost.last_batch ghost.last_err ghost.batch_open ghost.floor ghost.floor_set
 //@   ensures [floor-monotone] old(floor_set) ==> floor_set && floor >= old(floor)
 //@   ensures [accepted] err == nil ==> floor_set && floor >= revision
+// the record is never overwritten blindly: a first record is written only if still absent, an existing
+// one is swapped only from the value that was read and compared
+//@   ensures [the-record-is-written-conditionally] commits != old(commits) ==> bw_n[last_batch] == 1 && (bw_kind[last_batch][0] == 1 || bw_kind[last_batch][0] == 2) && is_compact_key(bw_key[last_batch][0])
 //@   ensures [closed] !batch_open
 
 //@ func (*backend).compact(ctx, revision) (err)
